@@ -81,7 +81,7 @@ CHECKS["C06"] = dict(
          "map, parentheses): every path of at most Depth fragments from 11 start contexts, each text cut off inside whatever is open "
          "and closed again, pushed through lex, parse, compile + error rendering, format (default and narrow options) and run; "
          "CoreCalls.tla enumerates, for every callable entry of the prelude dumped from the runtime under test, every argument tuple "
-         "up to the arity bound over a pool of 37 boundary values, a name used twice denoting the same object (receiver passed as "
+         "up to the arity bound over a pool of 41 boundary values (extreme integers and ranges, used-up iterators of three kinds), a name used twice denoting the same object (receiver passed as "
          "its own argument, callbacks that mutate the receiver); result or error is displayed. VmOps.tla covers what the VM does "
          "itself with a value (unpacking in assignments, arguments and match arms with ellipses, for loops, indexing, operators, "
          "interpolation, calls, type hints, throw/catch: 170 templates) over the pool plus 22 hostile objects whose meta functions "
@@ -142,7 +142,8 @@ CHECKS["C11"] = dict(
          "validated against it by TLC. Inputs: the corpus (tests, docs, examples), generated programs of every KotoCore family in "
          "randomised layouts with comments (a share with non-ASCII identifiers and string contents), the string-format-option grid, "
          "the block-position shapes of FmtShapes.tla (every block-introducing construct x every expression form as the block's only "
-         "expression x comment decorations), "
+         "expression x comment decorations; and every form of expression in every expression position: 62 contexts x 77 expressions, "
+         "with and without a trailing comment), "
          "in the thorough tier the token neighbourhood of the corpus; options from the 72-point grid. The formatted text of "
          "generated programs is also run and compared with the KotoCore prediction (or with a run of the text as given). Decided on "
          "the domain where nothing needs breaking (reference layout with line_length 255 fits, no chain broken, no shape of known "
